@@ -29,11 +29,11 @@ META = {
 def bound(draw, n):
     lo = draw(st.sampled_from([0, 0, None]))
     if lo is None:
-        lo = draw(st.integers(0, n - 2))
+        lo = draw(st.integers(0, n - 1))
     hi = draw(st.sampled_from([n, n, None]))
     if hi is None:
-        hi = draw(st.integers(lo + 2, n))
-    return lo, max(hi, lo + 2)
+        hi = draw(st.integers(lo + 1, n))
+    return lo, max(hi, lo + 1)
 
 
 @st.composite
@@ -70,24 +70,29 @@ def run_case(case, ctx):
     i0, i1, x0, x1 = case["window"]
     rate, bs = case["setting"]["rate"], tuple(case["setting"]["blockshape"])
     mode = case["mode"]
-    # reference: a SEG-Y holding only the windowed traces (same file headers), converted alone
+    # reference: a SEG-Y holding only the windowed traces (same file headers), converted alone.  A window one
+    # line wide has no such reference (a single line is a 2D section for the converter): it is checked against
+    # the source restricted to the window only
+    have_ref = (i1 - i0) >= 2 and (x1 - x0) >= 2
     sel = [i * n_xl + x for i in range(i0, i1) for x in range(x0, x1)]
     cols = {c: np.broadcast_to(np.asarray(v), (S.n,))[sel] for c, v in S.cols.items()}
     ref_sgy = os.path.join(d, "ref.sgy")
     il, xl = list(S.ilines[i0:i1]), list(S.xlines[x0:x1])
-    # the reference holds the source traces as segyio decodes them, in IEEE (IBM -> float -> IBM is not idempotent)
-    sgy.write_segy(ref_sgy, S.traces[sel], cols, case["src"]["dt_us"], fmt=5, grid=(il, xl),
-                   ext_headers=case["src"]["ext"], text=sources.text_header(case["src"]["text_seed"]),
-                   bin_extra=case["src"].get("bin"))
-    ref_src = sgy.read_source(ref_sgy)
-    if not codec.bits_equal(ref_src["traces"], S.traces[sel]):
-        raise RuntimeError("harness: reference SEG-Y does not hold the windowed traces")
+    if have_ref:
+        # the reference holds the source traces as segyio decodes them, in IEEE (IBM -> float -> IBM is not idempotent)
+        sgy.write_segy(ref_sgy, S.traces[sel], cols, case["src"]["dt_us"], fmt=5, grid=(il, xl),
+                       ext_headers=case["src"]["ext"], text=sources.text_header(case["src"]["text_seed"]),
+                       bin_extra=case["src"].get("bin"))
+        ref_src = sgy.read_source(ref_sgy)
+        if not codec.bits_equal(ref_src["traces"], S.traces[sel]):
+            raise RuntimeError("harness: reference SEG-Y does not hold the windowed traces")
     ref = os.path.join(d, "ref.sgz")
     win = os.path.join(d, "win.sgz")
     # the windowed conversion comes first (directly after the optional prior conversion), the reference after it
     if case["via"] == "api":
         conv.segy_convert(S.path, win, rate, bs, reduce_iops=case["reduce"], header_detection=mode, window=(i0, i1, x0, x1))
-        conv.segy_convert(ref_sgy, ref, rate, bs, header_detection=mode)
+        if have_ref:
+            conv.segy_convert(ref_sgy, ref, rate, bs, header_detection=mode)
     else:
         if mode != "heuristic":
             case = dict(case, mode="heuristic")   # the CLI has no detection option
@@ -98,16 +103,24 @@ def run_case(case, ctx):
                                      "--min-il", i0, "--max-il", i1, "--min-xl", x0, "--max-xl", x1])
         if code != 0:
             raise Violation("cli-failed", f"exit {code}: {exc!r}")
-        conv.segy_convert(ref_sgy, ref, rate, bs, header_detection=mode)
-    a, b = spec.SgzSpec(conv.read_bytes(win)), spec.SgzSpec(conv.read_bytes(ref))
-    da = a.raw[a.data_start:a.footer_start]
-    db = b.raw[b.data_start:b.footer_start]
-    if (a.n_il, a.n_xl, a.n_samples) != (b.n_il, b.n_xl, b.n_samples):
-        raise Violation("window-dimensions", f"windowed file {a.n_il}x{a.n_xl}x{a.n_samples}, windowed cube {b.n_il}x{b.n_xl}x{b.n_samples}")
-    if da != db:
-        raise Violation("window-data-section", f"data sections differ ({len(da)} vs {len(db)} bytes)")
-    if a.hash != b.hash:
-        raise Violation("window-hash", f"{a.hash.hex()} vs {b.hash.hex()}")
+        if have_ref:
+            conv.segy_convert(ref_sgy, ref, rate, bs, header_detection=mode)
+    a = spec.SgzSpec(conv.read_bytes(win))
+    if have_ref:
+        b = spec.SgzSpec(conv.read_bytes(ref))
+        da = a.raw[a.data_start:a.footer_start]
+        db = b.raw[b.data_start:b.footer_start]
+        if (a.n_il, a.n_xl, a.n_samples) != (b.n_il, b.n_xl, b.n_samples):
+            raise Violation("window-dimensions", f"windowed file {a.n_il}x{a.n_xl}x{a.n_samples}, windowed cube {b.n_il}x{b.n_xl}x{b.n_samples}")
+        if da != db:
+            raise Violation("window-data-section", f"data sections differ ({len(da)} vs {len(db)} bytes)")
+        if a.hash != b.hash:
+            raise Violation("window-hash", f"{a.hash.hex()} vs {b.hash.hex()}")
+    else:
+        import hashlib
+        want_hash = hashlib.sha1(np.ascontiguousarray(S.cube[i0:i1, x0:x1], dtype="<f4").tobytes()).digest()
+        if a.hash != want_hash:
+            raise Violation("window-hash", f"{a.hash.hex()} is not the SHA-1 of the windowed samples {want_hash.hex()}")
     # the windowed file on its own: conformance + codec oracle + headers of the windowed traces
     headers = [S.headers[t] for t in sel]
     if mode == "strip":
@@ -119,12 +132,14 @@ def run_case(case, ctx):
                         pos=list(range(len(sel))), tracecount=len(sel), rate=rate, bs=bs, source_code=0,
                         detection_code=MODE_CODE[mode], segy_header=S.file_header)
     stages.check_file(win, want, "windowed")
-    with SgzReader(win) as rw, SgzReader(ref) as rr:
-        for name in ("ilines", "xlines", "zslices"):
-            if not np.array_equal(getattr(rw, name), getattr(rr, name)):
-                raise Violation("window-axes", f"{name}: {getattr(rw, name)[:5]} vs {getattr(rr, name)[:5]}")
-        if rw.tracecount != rr.tracecount or rw.structured != rr.structured:
-            raise Violation("window-counts", f"{rw.tracecount}/{rw.structured} vs {rr.tracecount}/{rr.structured}")
+    with SgzReader(win) as rw:
+        if have_ref:
+            with SgzReader(ref) as rr:
+                for name in ("ilines", "xlines", "zslices"):
+                    if not np.array_equal(getattr(rw, name), getattr(rr, name)):
+                        raise Violation("window-axes", f"{name}: {getattr(rw, name)[:5]} vs {getattr(rr, name)[:5]}")
+                if rw.tracecount != rr.tracecount or rw.structured != rr.structured:
+                    raise Violation("window-counts", f"{rw.tracecount}/{rw.structured} vs {rr.tracecount}/{rr.structured}")
         if headers is not None:
             # stored arrays hold the windowed traces' values (compared with the source, not with the reference
             # file: the reference's own heuristic classification depends on *its* first and last trace)
@@ -137,7 +152,8 @@ def run_case(case, ctx):
     return {"sig": [i0 == 0, x0 == 0, i1 == n_il, x1 == n_xl, case["reduce"], mode, (4 * S.n) % 512 == 0,
                     (4 * len(sel)) % 512 == 0, fam, case["via"]] if not full else None,
             "labels": [mode, case["via"], "reduced" if case["reduce"] else "segyio", "full" if full else "window",
-                       "min0" if (i0 == 0 or x0 == 0) else "min>0"] + (["after-prior-conversion"] if case.get("prior") else [])}
+                       "min0" if (i0 == 0 or x0 == 0) else "min>0"] + (["after-prior-conversion"] if case.get("prior") else [])
+            + ([] if have_ref else ["one-line-window"])}
 
 
 def shard_main(ctx):
